@@ -18,7 +18,11 @@
      t2mfind <els> <map> <edx> <tag>      -> <member> | N          (SEQUENCE_decode_ber's search, glibc bsearch loop)
      t2mpick <map> <tag> <edx> <edxmax>   -> bs=<index|N> probes=<i,..|-> picks=<k|N|X,..|-> spec=<k|N>
                                              (one pick per entry bsearch() may return; X = outside the table)
-     t2mset <map> <tag>                   -> <member> | N          (SET / CHOICE) *)
+     t2mset <map> <tag>                   -> <member> | N          (SET / CHOICE)
+   spellings of a character in an XER text body (coq/Rt/EntrefComplete.v, coq/Rt/ResumeX.v):   ds := d:u,d:u,.. (digit value : upper case?)
+     entref <hexa 0|1> <ds>               -> <hex of ref_chars> <ref_val> <hex of what ResumeX.ref_at reads it as | ->
+     entrefl <hexa 0|1> <ds>              -> the same reading with the lower-case-only digit table (digit_lower)
+     entdec <hex body|->                  -> <RC> <consumed> <hex of the string>   (ResumeX.entref_step on body ++ "<") *)
 open Model
 open Drvlib
 
@@ -218,5 +222,18 @@ let dispatch cmd args =
               (list_s (fun p -> string_of_int (int_of_nat p)) ps)
               (list_s (fun p -> pick_s (seq_pick m p edx emax)) ps)
               (nat_s (spec_pick m tag edx emax)))
+  | "entref", [h; ds] | "entrefl", [h; ds] ->
+      let hexa = (h = "1") in
+      let ds = List.map (fun e -> match String.split_on_char ':' e with
+        | [d; u] -> (cz_of_string d, u = "1") | _ -> raise (Parse "bad digit")) (split_on ',' ds) in
+      let chars = ref_chars hexa ds in
+      let out = if cmd = "entref" then ref_read hexa ds
+                else (match ref_at_g digit_lower (chars @ bytes_of_hex "3c") with XChars (o, _) -> o | XStall -> []) in
+      Some (Printf.sprintf "%s %s %s" (hex_of_bytes chars) (string_of_cz (ref_val (if hexa then cz_of_string "16" else cz_of_string "10") ds))
+              (if out = [] then "-" else hex_of_bytes out))
+  | "entdec", [h] ->
+      let ((c, k), acc) = text_read (if h = "-" then [] else bytes_of_hex h) in
+      Some (Printf.sprintf "%s %d %s" (match c with OK -> "OK" | MORE -> "MORE" | FAIL -> "FAIL") (int_of_nat k)
+              (if acc = [] then "-" else hex_of_bytes acc))
   | "t2mset", [m; tag] -> Some (nat_s (tag_find (parse_map m) (cz_of_string tag)))
   | _ -> None
